@@ -1390,6 +1390,11 @@ Hwrite(int32 access_id, int32 length, const void *data)
             goto done; /* we're finished, wrap things up */
         }              /* end if */
 
+        /* the grown element must still end within the signed 32-bit offset range
+           of the file format (the end-of-file offset would wrap otherwise) */
+        if (access_rec->posn + length > (int32)0x7fffffff - data_off)
+            HGOTO_ERROR(DFE_BADLEN, FAIL);
+
         /* Update the DD with the new length. Note argument of '-2' for
            the offset parameter means not to change the offset in the DD. */
         if (HTPupdate(access_rec->ddid, -2, access_rec->posn + length) == FAIL)
